@@ -381,7 +381,15 @@ def merge_render_with_diff3(b, l, r, strategy=None):
         return r, 0
     elif strategy is not None:
         warning("Using diff3 but ignoring strategy %s", strategy)
+    # diff3 glues its conflict markers onto a last line that lacks a newline
+    # ("x = 1>>>>>>> remote"), so make every input end with one, and take the
+    # added newline off again if neither side had it
+    b, l, r = as_text(b), as_text(l), as_text(r)
+    added_newline = not (l.endswith('\n') or r.endswith('\n'))
+    b, l, r = [s if (not s or s.endswith('\n')) else s + '\n' for s in (b, l, r)]
     merged, status = external_merge_render(cmd.split(), b, l, r)
+    if added_newline and merged.endswith('\n'):
+        merged = merged[:-1]
     return merged, status
 
 
